@@ -143,12 +143,18 @@ def run_S(pid, tier, seed, cp_mode="real", props_monitored=None, extra_fail_sig=
             samples.append(dict(scenario=sc, protocol=text.splitlines()))
 
     hung = False
+    nhangs = 0
     for k, sc in scenario_stream(seed, B["s_runs"], pid):
         obs = S.run_scenario(sc, timeout=15)
         one("r%s" % k, sc, obs)
         if obs.get("outcome", ("",))[0] == "hang":
-            hung = True   # a stuck scheduler thread cannot be killed and may spin: stop exploring here
-            break
+            nhangs += 1
+            # a scheduler that spins through the wait primitives has been stopped (control.Kill): go on, a few times;
+            # one that is really stuck cannot be killed and may spin: stop exploring here
+            if obs["run"].zombie_alive or nhangs >= 6:
+                hung = True
+                break
+    facts_total["hangs"] = nhangs
     for k, sc in ([] if hung else small_scenarios(seed, B["s_enum"])):
         facts_total["enumerated_scenarios"] += 1
         for j, (sc2, obs) in enumerate(enumerate_scripts(sc, 60 if tier == "quick" else 400)):
@@ -1150,8 +1156,23 @@ def run_H(pid, tier, seed):
             if a[0] == "FORK":
                 stats["forks"] += 1
                 continue
+            if a[0] == "NOFILE":
+                failures.append(Failure("correspondence", "H-model-has-no-file", scen, dict(op=op, real=outc), slice_="H"))
+                continue
             m_ok = a[0] == "OK"
             ei, ri = a.index("E"), a.index("R")
+            if "file" in rec and outc[0] == "OK" and m_ok:
+                # the cache file: what the pickle holds vs what the model's executor wrote (VM.writeFile)
+                m_file = dict(t.split("=", 1) for t in a[a.index("F") + 1:ei]) if "F" in a[:ei] else {}
+                stats["cache_files_compared"] = stats.get("cache_files_compared", 0) + 1
+                if m_file != rec["file"]:
+                    kind = "counterexample" if pid == "C18" else "correspondence"
+                    extra = sorted(set(rec["file"]) - set(m_file), key=int)
+                    missing = sorted(set(m_file) - set(rec["file"]), key=int)
+                    sig = ("cache-file-holds-a-cache_deps_of-target" if extra and op.get("mode") == "deps" and set(map(int, extra)) & set(op["T"])
+                           else "cache-file-content-differs")
+                    failures.append(Failure(kind, sig, scen, dict(op=op, real_file=rec["file"], model_file=m_file, extra=extra, missing=missing), slice_="H"))
+                    continue
             m_ent = sorted(int(x) for x in a[ei + 1:ri])
             m_vals = a[ri + 1:]
             # C11 monitor: a setup node entered twice on one instance
@@ -1276,8 +1297,9 @@ def run_V_and_composed_flags(pid, tier, seed):
 
 PROPS["C10"]["run"] = run_V_and_composed_flags
 
-reg("C15", ["Props.C15_no_state_but_setup", "Props.C15_next_call_depends_only_on_setup_state", "Props.C15_failed_operation_is_a_noop", "VM.applyOp_res_nonsetup", "Props.C01_core"], run_H_and_composeprobe, ASSUME_H)
-reg("C18", ["Props.C18_restart_same", "Props.C18_restart_runs_only_uncached", "VM.denote_seeded"], run_H, ASSUME_H)
+reg("C15", ["Props.C15_no_state_but_setup", "Props.C15_next_call_depends_only_on_setup_state", "Props.C15_failed_operation_is_a_noop", "VM.applyOp_res_nonsetup", "Props.C01_core",
+            "Props.C15_executor_single_use", "Props.C15_executor_run_is_complete", "Props.C15_executor_no_state_but_setup"], run_H_and_composeprobe, ASSUME_H)
+reg("C18", ["Props.C18_restart_same", "Props.C18_restart_runs_only_uncached", "VM.denote_seeded", "Props.C18_cache_roundtrip"], run_H, ASSUME_H)
 
 
 # ---------------------------------------------------------------------------------------------
